@@ -261,6 +261,14 @@ func (s *bState) assume(t *Term) {
 			s.consts[a.Name] = b
 		} else if b.Op == "var" && a.IsConst() {
 			s.consts[b.Name] = a
+		} else if a.Op == "var" && b.Op == "var" && a.Sort == SInt && b.Sort == SInt && a.Name != b.Name {
+			// two input quantities the contract equates (ring degrees of two ciphertexts): one name for both,
+			// so that a comparison between them is decided
+			if _, seen := s.consts[b.Name]; !seen {
+				if _, seen := s.consts[a.Name]; !seen {
+					s.consts[a.Name] = b
+				}
+			}
 		} else if a.Op == "var" && b.Op == "app" && strings.HasPrefix(b.Name, "cmpval") && strings.Contains(a.Name, ".res") {
 			// the result of a comparison under contract is the (uninterpreted) outcome the contract names:
 			// a branch on it is then decided by what the preconditions say about that outcome
